@@ -33,7 +33,9 @@ def install(prog):
         if m: return Agg(m.group(1), [])
         m = re.match(r'^libc::(SIG\w+)$', s)
         if m and m.group(1) in SIGNALS: return SIGNALS[m.group(1)]
-        if s in ('libc::SIG_DFL', 'libc::SIG_IGN', 'libc::SIG_BLOCK', 'libc::SIG_SETMASK', 'libc::SIG_UNBLOCK'): return 0
+        if s in ('libc::SIG_DFL', 'libc::SIG_BLOCK'): return 0
+        if s in ('libc::SIG_IGN', 'libc::SIG_UNBLOCK'): return 1
+        if s == 'libc::SIG_SETMASK': return 2
         return NotImplemented
     prog.const_models.append(const_model)
     @M('<WaitPidFlag as BitOr>::bitor')
